@@ -60,18 +60,20 @@ type ledgerStats struct {
 	appliedReverted int64
 	distinct        map[string]bool // (entry, sealed, transaction shape, era)
 	blocks          int64
+	hung            map[string]bool // classes with a confirmed hang: not executed again (each costs two deadlines and two goroutines)
+	skippedHung     int64
 	unknown         map[string]bool
 	samples         []any
 }
 
 func newLedgerStats() *ledgerStats {
 	return &ledgerStats{perEntry: map[string]int64{}, perEntryOK: map[string]int64{}, perFam: map[string]int64{}, entriesHit: map[int]bool{},
-		accepted: map[string]int64{}, distinct: map[string]bool{}, unknown: map[string]bool{}}
+		accepted: map[string]int64{}, distinct: map[string]bool{}, unknown: map[string]bool{}, hung: map[string]bool{}}
 }
 
 // blockScope families build their own transaction (or change the block); they run once per block.
 func blockScope(e ext) bool {
-	return e.Ver == 0 || e.Fam == "weight" || e.Fam == "empty" || e.Fam == "era"
+	return e.Ver == 0 || e.Fam == "weight" || e.Fam == "empty" || e.Fam == "era" || e.Fam == "decoded"
 }
 
 func keyMap(sim *chain.Sim) map[types.PublicKey]types.PrivateKey {
@@ -129,6 +131,28 @@ func mutateBlock(c *vlib.Ctx, st *ledgerStats, exts []ext, sim *chain.Sim, g *gu
 	st.blocks++
 	st.mu.Unlock()
 	local := newLedgerStats()
+	// ids of the elements this block creates, in creation order
+	created := &createdIDs{}
+	for _, d := range a.Update.SiacoinElementDiffs() {
+		if d.Created {
+			created.sc = append(created.sc, types.Hash256(d.SiacoinElement.ID))
+		}
+	}
+	for _, d := range a.Update.SiafundElementDiffs() {
+		if d.Created {
+			created.sf = append(created.sf, types.Hash256(d.SiafundElement.ID))
+		}
+	}
+	for _, d := range a.Update.FileContractElementDiffs() {
+		if d.Created {
+			created.fc = append(created.fc, types.Hash256(d.FileContractElement.ID))
+		}
+	}
+	for _, d := range a.Update.V2FileContractElementDiffs() {
+		if d.Created {
+			created.v2fc = append(created.v2fc, types.Hash256(d.V2FileContractElement.ID))
+		}
+	}
 	count := func(entry string, ok bool) {
 		local.perEntry[entry]++
 		if ok {
@@ -140,8 +164,17 @@ func mutateBlock(c *vlib.Ctx, st *ledgerStats, exts []ext, sim *chain.Sim, g *gu
 		if tg.abs != nil {
 			shape = fmt.Sprintf("v%d:%s", tg.abs.Ver, tg.abs.Tag)
 		}
+		st.mu.Lock()
+		skip := st.hung[e.class()]
+		if skip {
+			st.skippedHung++
+		}
+		st.mu.Unlock()
+		if skip {
+			return
+		}
 		for _, sealed := range []bool{false, true} {
-			m := &mctx{sim: sim, cs: a.Prev, child: child, ver: tg.ver, k: tg.k, abs: tg.abs, keys: keys}
+			m := &mctx{sim: sim, cs: a.Prev, child: child, ver: tg.ver, k: tg.k, abs: tg.abs, keys: keys, created: created}
 			m.b, m.bs = cloneBlock(a.Block, a.Supp)
 			var applied bool
 			if p, val := vlib.Recover(func() { applied = m.apply(e) }); p {
@@ -180,6 +213,9 @@ func mutateBlock(c *vlib.Ctx, st *ledgerStats, exts []ext, sim *chain.Sim, g *gu
 						continue
 					}
 					kind, site = fmt.Sprintf("does not return within %v (twice)", deadline), lo.Entry
+					st.mu.Lock()
+					st.hung[e.class()] = true
+					st.mu.Unlock()
 				}
 				if site == "" {
 					site = lo.Entry
